@@ -46,3 +46,165 @@ Print Assumptions c18_no_partial_while_unacked.
 Print Assumptions c18_log_faithful.
 Print Assumptions c18_nagle_predicate_split.
 Print Assumptions c18_drain_sends.
+
+(* ================================================================================================
+   The lift to a whole poll and to every trace (Conn/C18_Step.v).
+   TI = the table invariant (segments tile [base, offset) with positive sizes, len_bytes = sum of
+   the sizes, mss >= 1): holds of vsock_new, kept by every event; it implies the guard c18_pre. *)
+From Utp Require Import Tx.Segments_Proofs Conn.VSock_LemmasStep Conn.C10_Pred Conn.C10_Proofs
+  Conn.C18_Pred2 Conn.C18_StepLemmas Conn.C18_Step Conn.C18_StepEx.
+
+Theorem c18_table_invariant_initial : forall (CC : Type) (cci : cc_iface CC) (mk : Z -> Z -> CC)
+    (c : vconfig) (s : vsock CC),
+  vsock_new cci mk c = Some s -> TI s.
+Proof. exact @TI_vsock_new. Qed.
+
+Theorem c18_table_invariant_every_step : forall (CC : Type) (cci : cc_iface CC) (s : vsock CC) (o : vop),
+  TI s -> TI (vstep_state cci s o).
+Proof. exact @TI_vstep. Qed.
+
+(* what TI says, spelled out *)
+Theorem c18_table_invariant_meaning : forall (CC : Type) (s : vsock CC),
+  TI s <->
+  1 <= mss (v_ss s) /\
+  ss_len_bytes (v_segs s) = sum_sizes (ss_segs (v_segs s)) /\
+  exists base, tiled base (ss_segs (v_segs s)) /\
+               Forall (fun g => 0 < sg_size g) (ss_segs (v_segs s)) /\
+               ss_offset (v_segs s) = base + sum_sizes (ss_segs (v_segs s)).
+Proof. exact @TI_meaning. Qed.
+
+(* the monitored guard of c18_nagle_ok is an invariant *)
+Theorem c18_pre_invariant : forall (CC : Type) (cci : cc_iface CC) (s : vsock CC),
+  TI s -> c18_pre (fp_of_vsock cci s) = true.
+Proof. exact @TI_c18_pre. Qed.
+
+Theorem c18_pre_monitor_every_trace : forall (CC : Type) (cci : cc_iface CC) (cfg : vconfig)
+    (mk : Z -> Z -> CC) (c : vconfig) (s0 : vsock CC) (ops : list vop),
+  vsock_new cci mk c = Some s0 -> forallb (c18_pre_monitor cfg) (ftrace cci s0 ops) = true.
+Proof. exact @c18_pre_monitor_trace. Qed.
+
+Theorem c18_pre_ok_every_step : forall (CC : Type) (cci : cc_iface CC) (cfg : vconfig) (s : vsock CC) (o : vop),
+  TI s -> c18_pre_ok cfg (VSock_Lemmas.fstep_of cci s o) = true.
+Proof. exact @c18_pre_ok_step. Qed.
+
+Theorem c18_pre_ok_every_trace : forall (CC : Type) (cci : cc_iface CC) (cfg : vconfig)
+    (mk : Z -> Z -> CC) (c : vconfig) (s0 : vsock CC) (ops : list vop),
+  vsock_new cci mk c = Some s0 -> forallb (c18_pre_ok cfg) (ftrace cci s0 ops) = true.
+Proof. exact @c18_pre_ok_trace. Qed.
+
+(* (a) the Nagle rule on what the fingerprint shows, for EVERY poll of the model: restart loop,
+   acknowledgements processed before the segmentation, popped probes included *)
+Theorem c18_nagle_ok_every_step : forall (CC : Type) (cci : cc_iface CC) (cfg : vconfig) (s : vsock CC) (o : vop),
+  TI s -> (vc_nagle cfg = true -> o_nagle (v_opts s) = true) ->
+  c18_nagle_ok cfg (VSock_Lemmas.fstep_of cci s o) = true.
+Proof. exact @c18_nagle_ok_step. Qed.
+
+Theorem c18_nagle_ok_every_trace : forall (CC : Type) (cci : cc_iface CC)
+    (mk : Z -> Z -> CC) (c : vconfig) (s0 : vsock CC) (ops : list vop),
+  vsock_new cci mk c = Some s0 -> forallb (c18_nagle_ok c) (ftrace cci s0 ops) = true.
+Proof. exact @c18_nagle_ok_trace. Qed.
+
+(* the invariant of one poll behind it: off0 / m0 = next-byte offset / mss before the poll *)
+Theorem c18_poll_invariant : forall (CC : Type) (cci : cc_iface CC) (off0 m0 : Z) (s s' : vsock CC) r,
+  Core1 off0 m0 (VSock_Lemmas.poll_init s) -> poll cci s = (s', r) -> Core1 off0 m0 s'.
+Proof. exact @Core1_poll. Qed.
+
+(* (c18_off_all_segmented) Nagle off, no undelivered probe outstanding before or after, peer FIN
+   not seen, send buffer not empty: after a completed poll unsegmented = 0 or the bytes segmented
+   in this poll use up the peer's window *)
+Theorem c18_off_all_segmented_every_step : forall (CC : Type) (cci : cc_iface CC) (cfg : vconfig) (s : vsock CC) (o : vop),
+  TI s -> (vc_nagle cfg = false -> o_nagle (v_opts s) = false) ->
+  c18_off_all_segmented_ok cfg (VSock_Lemmas.fstep_of cci s o) = true.
+Proof. exact @c18_off_all_segmented_ok_step. Qed.
+
+Theorem c18_off_all_segmented_every_trace : forall (CC : Type) (cci : cc_iface CC)
+    (mk : Z -> Z -> CC) (c : vconfig) (s0 : vsock CC) (ops : list vop),
+  vsock_new cci mk c = Some s0 -> forallb (c18_off_all_segmented_ok c) (ftrace cci s0 ops) = true.
+Proof. exact @c18_off_all_segmented_ok_trace. Qed.
+
+(* (c18_drain_sends) at the level of the poll: after a completed poll, peer FIN not seen, window
+   open: unsegmented buffered bytes imply a non-empty table (nothing is held back with nothing in
+   flight) *)
+Theorem c18_drain_sends_every_step : forall (CC : Type) (cci : cc_iface CC) (cfg : vconfig) (s : vsock CC) (o : vop),
+  TI s -> c18_drain_sends_ok cfg (VSock_Lemmas.fstep_of cci s o) = true.
+Proof. exact @c18_drain_sends_ok_step. Qed.
+
+Theorem c18_drain_sends_every_trace : forall (CC : Type) (cci : cc_iface CC) (cfg : vconfig)
+    (mk : Z -> Z -> CC) (c : vconfig) (s0 : vsock CC) (ops : list vop),
+  vsock_new cci mk c = Some s0 -> forallb (c18_drain_sends_ok cfg) (ftrace cci s0 ops) = true.
+Proof. exact @c18_drain_sends_ok_trace. Qed.
+
+(* the guards are met by steps of reachable traces *)
+Theorem c18_nagle_guard_met :
+  exists w cfg ops,
+    vconfig_ok cfg = true /\ vc_nagle cfg = true /\
+    existsb (fun st => c18_is_poll st && c18_pre (fs_pre st) && c18_no_probe_last (fs_pre st)
+                       && nonempty (f_segs (fs_pre st))
+                       && (f_seg_offset (fs_pre st) <? f_seg_offset (fs_post st))
+                       && (0 <? f_unsegmented (fs_post st))
+                       && (f_unsegmented (fs_post st) <? f_mss (fs_pre st)))
+            (wtrace w cfg ops) = true /\
+    forallb (c18_nagle_ok cfg) (wtrace w cfg ops) = true /\
+    existsb (fun st => c18_completed st && (0 <? f_last_remote_window (fs_post st))
+                       && (f_seg_len_bytes (fs_post st) <? f_tx_len (fs_post st)))
+            (wtrace w cfg ops) = true /\
+    forallb (c18_drain_sends_ok cfg) (wtrace w cfg ops) = true.
+Proof. exact c18_nagle_guard_nonvacuous. Qed.
+
+Theorem c18_off_guard_met :
+  exists w cfg ops,
+    vconfig_ok cfg = true /\ vc_nagle cfg = false /\
+    existsb (fun st => c18_off_guard cfg st && (f_unsegmented (fs_post st) =? 0)
+                       && (f_seg_offset (fs_pre st) <? f_seg_offset (fs_post st)))
+            (wtrace w cfg ops) = true /\
+    existsb (fun st => c18_off_guard cfg st && (0 <? f_unsegmented (fs_post st))
+                       && (f_last_remote_window (fs_post st) =? f_seg_offset (fs_post st) - f_seg_offset (fs_pre st)))
+            (wtrace w cfg ops) = true /\
+    forallb (c18_off_all_segmented_ok cfg) (wtrace w cfg ops) = true.
+Proof. exact c18_off_guard_nonvacuous. Qed.
+
+(* data buffered => something is segmented: after a completed poll, peer FIN not seen, window open,
+   a non-empty send buffer implies a non-empty segment table *)
+Theorem c18_buffered_segmented_every_step : forall (CC : Type) (cci : cc_iface CC) (cfg : vconfig) (s : vsock CC) (o : vop),
+  TI s -> c18_buffered_segmented_ok cfg (VSock_Lemmas.fstep_of cci s o) = true.
+Proof. exact @c18_buffered_segmented_ok_step. Qed.
+
+Theorem c18_buffered_segmented_every_trace : forall (CC : Type) (cci : cc_iface CC) (cfg : vconfig)
+    (mk : Z -> Z -> CC) (c : vconfig) (s0 : vsock CC) (ops : list vop),
+  vsock_new cci mk c = Some s0 -> forallb (c18_buffered_segmented_ok cfg) (ftrace cci s0 ops) = true.
+Proof. exact @c18_buffered_segmented_ok_trace. Qed.
+
+(* the guard "no undelivered probe outstanding BEFORE the poll" of c18_off_all_segmented_ok cannot be
+   dropped from the observable form: an expired probe is popped and the next-byte offset rewinds *)
+Theorem c18_off_probe_guard_is_needed :
+  exists w cfg ops,
+    vconfig_ok cfg = true /\ vc_nagle cfg = false /\
+    existsb (fun st => c18_completed st && negb (c18_no_probe_last (fs_pre st))
+                       && c18_no_probe_last (fs_post st)
+                       && negb (is_remote_fin_or_later (f_state (fs_post st)))
+                       && (0 <? f_unsegmented (fs_post st))
+                       && (f_seg_offset (fs_post st) - f_seg_offset (fs_pre st) <? f_last_remote_window (fs_post st))
+                       && (f_seg_offset (fs_post st) <? f_seg_offset (fs_pre st)))
+            (wtrace w cfg ops) = true /\
+    forallb (c18_off_all_segmented_ok cfg) (wtrace w cfg ops) = true.
+Proof. exact c18_off_probe_guard_needed. Qed.
+
+Print Assumptions c18_table_invariant_initial.
+Print Assumptions c18_table_invariant_every_step.
+Print Assumptions c18_table_invariant_meaning.
+Print Assumptions c18_pre_invariant.
+Print Assumptions c18_pre_monitor_every_trace.
+Print Assumptions c18_pre_ok_every_step.
+Print Assumptions c18_pre_ok_every_trace.
+Print Assumptions c18_nagle_ok_every_step.
+Print Assumptions c18_nagle_ok_every_trace.
+Print Assumptions c18_poll_invariant.
+Print Assumptions c18_off_all_segmented_every_step.
+Print Assumptions c18_off_all_segmented_every_trace.
+Print Assumptions c18_drain_sends_every_step.
+Print Assumptions c18_drain_sends_every_trace.
+Print Assumptions c18_nagle_guard_met.
+Print Assumptions c18_off_guard_met.
+Print Assumptions c18_buffered_segmented_every_step.
+Print Assumptions c18_buffered_segmented_every_trace.
+Print Assumptions c18_off_probe_guard_is_needed.
